@@ -1,6 +1,7 @@
 CONSTANTS Seed = 1
  Ops = {"sm2sign","sm2enc","sm2keygen","sm2kx","ecdhkeygen","sm9masters","sm9mastere","sm9wrap","sm9kx","sm9sign"}
  SeqIds = {1,2,4,9,11}
+ CmpIds = {5, 47}
  Aligns = {0,1}
  FaultKinds = {"err","eof"}
  FaultStride = 16
